@@ -4,8 +4,8 @@
 // given operation scripts and writes a trace: one line per operation, `<op> <args> => <result>`.
 // The same trace is fed to the Lean driver, which runs the model and the spec on it.
 //
-//   harness gen  -suite S -seed N -cases C -out trace      generate + execute
-//   harness run  -suite S -in script -out trace            execute a given script (replay / shrink)
+//	harness gen  -suite S -seed N -cases C -out trace      generate + execute
+//	harness run  -suite S -in script -out trace            execute a given script (replay / shrink)
 //
 // Every random choice comes from one PRNG seeded by -seed; case i uses a PRNG derived from (seed, i).
 package main
